@@ -34,12 +34,17 @@ def sym(name: str, **kw) -> sp.Symbol:
 
 
 def to_sympy(e: ast.AST, env: Optional[Dict[str, sp.Expr]] = None, real: bool = True,
-             on_unknown: Optional[Callable[[ast.AST], Optional[sp.Expr]]] = None) -> sp.Expr:
+             on_unknown: Optional[Callable[[ast.AST], Optional[sp.Expr]]] = None,
+             first: Optional[Callable[[ast.AST], Optional[sp.Expr]]] = None) -> sp.Expr:
     """env maps normalised source text (e.g. 'gate.parameter', 'theta') to sympy expressions; any other name or
     attribute chain becomes a (real) symbol named after its text."""
     env = env or {}
 
     def rec(n: ast.AST) -> sp.Expr:
+        if first is not None:
+            r0 = first(n)
+            if r0 is not None:
+                return r0
         txt = norm(n) if isinstance(n, (ast.Name, ast.Attribute, ast.Subscript, ast.Call)) else None
         if txt is not None and txt in env:
             return env[txt]
